@@ -274,17 +274,28 @@ fn cli_run(f: &Fault, mode: Mode, m: &Mutated) -> Option<(String, String)> {
     None
 }
 
-/// Splits the stderr of the CLI into error messages (each starts with `ERROR` and a `0x..:` offset).
+/// Splits the stderr of the CLI into error messages: a message starts on a line beginning with `ERROR ` and runs
+/// until the next line that begins with a log level (`ERROR `, `WARN `, `INFO `, `DEBUG `, `TRACE `).
 pub fn split_cli_errors(stderr: &str) -> Vec<String> {
     let clean = strip_ansi(stderr);
     let mut out: Vec<String> = Vec::new();
+    let mut in_error = false;
     for line in clean.lines() {
-        if let Some(i) = line.find("ERROR") {
-            let rest = line[i + 5..].trim_start_matches([' ', '-', ':']).trim_start();
-            out.push(rest.to_string());
-        } else if let Some(last) = out.last_mut() {
-            last.push('\n');
-            last.push_str(line);
+        let level = ["ERROR ", "WARN ", "INFO ", "DEBUG ", "TRACE "].iter().find(|l| line.starts_with(**l));
+        match level {
+            Some(&"ERROR ") => {
+                out.push(line[6..].trim_start().to_string());
+                in_error = true;
+            }
+            Some(_) => in_error = false,
+            None => {
+                if in_error {
+                    if let Some(last) = out.last_mut() {
+                        last.push('\n');
+                        last.push_str(line);
+                    }
+                }
+            }
         }
     }
     out
